@@ -27,6 +27,7 @@ import (
 	"go.dedis.ch/kyber/v4/group/edwards25519"
 	"go.dedis.ch/kyber/v4/proof"
 	"go.dedis.ch/kyber/v4/share"
+	"go.dedis.ch/kyber/v4/share/pvss"
 	"go.dedis.ch/kyber/v4/sign/bdn"
 	"go.dedis.ch/kyber/v4/sign/cosi"
 	"go.dedis.ch/kyber/v4/sign/schnorr"
@@ -347,6 +348,60 @@ func c20SchemeMethods() []roMethod {
 	ms = append(ms, roMethod{"PubPoly.Eval", func() string { return pointHex(pub.Eval(4).V) }},
 		roMethod{"PubPoly.Check", func() string { return fmt.Sprint(pub.Check(sh)) }},
 		roMethod{"PubPoly.Commit+Info", func() string { _, c := pub.Info(); return pointHex(pub.Commit()) + pointHex(c[1]) }})
+	// share lists held by several goroutines: interpolation and recovery read them only
+	pubShares, priShares := pub.Shares(5), pri.Shares(5)
+	ms = append(ms, roMethod{"share.RecoverCommit(shared shares)", func() string {
+		c, err := share.RecoverCommit(ed, pubShares, 3, 5)
+		return pointHex(c) + fmt.Sprint(err)
+	}}, roMethod{"share.RecoverSecret(shared shares)", func() string {
+		c, err := share.RecoverSecret(ed, priShares, 3, 5)
+		return fmt.Sprint(c, err)
+	}}, roMethod{"share.RecoverPubPoly+RecoverPriPoly(shared shares)", func() string {
+		pp, e1 := share.RecoverPubPoly(ed, pubShares, 3, 5)
+		rp, e2 := share.RecoverPriPoly(ed, priShares, 3, 5)
+		if e1 != nil || e2 != nil {
+			return fmt.Sprint(e1, e2)
+		}
+		return pointHex(pp.Commit()) + fmt.Sprint(rp.Secret())
+	}}, roMethod{"shared share values: Clone+Equal+Marshal", func() string {
+		out := ""
+		for _, sh := range pubShares {
+			c := sh.V.Clone()
+			out += fmt.Sprint(c.Equal(sh.V)) + pointHex(sh.V)
+		}
+		return out
+	}})
+	// PVSS on shared encrypted / decrypted shares
+	{
+		H := ed.Point().Pick(st)
+		n, th := 4, 3
+		xs, Xs := make([]kyber.Scalar, n), make([]kyber.Point, n)
+		for i := range xs {
+			xs[i] = ed.Scalar().Pick(st)
+			Xs[i] = ed.Point().Mul(xs[i], nil)
+		}
+		enc, ppoly, err := pvss.EncShares(ed, H, Xs, ed.Scalar().Pick(st), uint32(th))
+		if err == nil {
+			sH := make([]kyber.Point, n)
+			for i := range sH {
+				sH[i] = ppoly.Eval(uint32(i)).V
+			}
+			gc := enc[0].P.C
+			var dec []*pvss.PubVerShare
+			for i := range enc {
+				d, _ := pvss.DecShare(ed, H, Xs[i], sH[i], xs[i], gc, enc[i])
+				dec = append(dec, d)
+			}
+			G := ed.Point().Base()
+			ms = append(ms, roMethod{"pvss.VerifyEncShareBatch(shared)", func() string {
+				K, E, err := pvss.VerifyEncShareBatch(ed, H, Xs, sH, ppoly, enc)
+				return fmt.Sprint(len(K), len(E), err)
+			}}, roMethod{"pvss.RecoverSecret(shared)", func() string {
+				r, err := pvss.RecoverSecret(ed, G, Xs, enc, dec, uint32(th), uint32(n))
+				return pointHex(r) + fmt.Sprint(err)
+			}})
+		}
+	}
 	// proof verification with shared predicate and points (one verifier instance per call)
 	pred := proof.Rep("X", "x", "B")
 	pts := map[string]kyber.Point{"X": X, "B": ed.Point().Base()}
